@@ -12,7 +12,7 @@
 From Coq Require Import ZArith List Bool.
 From Common Require Import Res Str.
 From Routing Require Import Model Scheme Obs Spec Obs Proofs_Tables Proofs_Group Proofs_Merge Proofs_Library Proofs_Ops
-     Proofs_Routing Proofs_Witness Proofs_Frame Proofs_Sets Proofs_Scheme Proofs_Trace.
+     Proofs_Routing Proofs_Witness Proofs_Frame Proofs_Sets Proofs_Scheme Proofs_Trace Proofs_Single.
 Import ListNotations.
 Open Scope Z_scope.
 
@@ -258,6 +258,67 @@ Theorem C09_images_provenance : forall T P us log m u es e,
 Proof. exact images_provenance_lemma. Qed.
 Print Assumptions C09_images_provenance.
 
+(* T5b for the requests naming one URI.  Full strength (an ill-typed answer leaves the empty
+   value) is refuted by playlists.delete, which hands the answer through (known finding);
+   it holds for browse / get_items / playlists.lookup / save *)
+Theorem C09_single_bad_answer_discarded_full_refuted : ~ single_bad_answer_discarded_full.
+Proof. exact single_bad_answer_discarded_refuted. Qed.
+Print Assumptions C09_single_bad_answer_discarded_full_refuted.
+
+Theorem C09_single_bad_answer_discarded_partial : forall T P mx o u flag empty b m a,
+  is_delete o = false ->
+  single_uri_op o = Some (u, flag, empty) -> single_call o = Some (m, a) ->
+  bad_uri u = false \/ m = PLookup \/ m = PSave ->
+  tget (table_for flag T o) (u_scheme u) = Some b ->
+  ans P b m a <> RRaise KBase -> (m = PSave -> ans P b m a <> RRaise KAssertion) ->
+  single_answer_ok o (ans P b m a) = false ->
+  snd (run_op T P mx o) = Ok empty.
+Proof. exact single_bad_answer_discarded_partial. Qed.
+Print Assumptions C09_single_bad_answer_discarded_partial.
+
+Theorem C09_delete_answer_handling : forall T P u b log out,
+  bad_uri u = false -> tget (t_playlists T) (u_scheme u) = Some b -> delete T P u = (log, out) ->
+  match ans P b PDelete (AUri u) with
+  | RRaise k => if ordinary k then out = Ok (VBool false) else out = Raise k
+  | RNone => out = Ok (VBool true)
+  | RBool x => out = Ok (VBool x)
+  | RInt z => out = Ok (VInt z)
+  | _ => out = Ok VRaw
+  end.
+Proof. exact delete_answer_handling. Qed.
+Print Assumptions C09_delete_answer_handling.
+
+(* get_distinct: "every value was listed by some provider" is refuted by a dict answer whose
+   keys are merged (known finding); it holds when no provider answers with a non-empty dict *)
+Theorem C09_distinct_values_listed_full_refuted : ~ distinct_values_listed_full.
+Proof. exact distinct_values_listed_refuted. Qed.
+Print Assumptions C09_distinct_values_listed_full_refuted.
+
+Theorem C09_distinct_values_listed_partial : forall T P f q log l e,
+  no_dict_answer P ->
+  get_distinct T P f q = (log, Ok (VList l)) -> In e l ->
+  exists b es, ans P b MDistinct (ADistinct (field_compat f) q) = RList es /\ In e es.
+Proof. exact distinct_values_listed_partial. Qed.
+Print Assumptions C09_distinct_values_listed_partial.
+
+(* create: providers are asked in order, the first Playlist answer wins, everything before it
+   (ordinary raise, None, wrong type) is skipped *)
+Theorem C09_create_first_acceptable : forall P n bs log out,
+  create_loop P n bs = (log, out) ->
+  (forall b, In b bs -> ans P b PCreate (AName n) <> RRaise KBase) ->
+  match out with
+  | Ok (VVal CPlaylist id) =>
+      exists pre b post, bs = pre ++ b :: post /\ create_accepts (ans P b PCreate (AName n)) = Some id /\
+                         (forall b', In b' pre -> create_accepts (ans P b' PCreate (AName n)) = None) /\
+                         log = map (fun b => (Bk b, PCreate, AName n)) (pre ++ [b])
+  | Ok VNone =>
+      (forall b, In b bs -> create_accepts (ans P b PCreate (AName n)) = None) /\
+      log = map (fun b => (Bk b, PCreate, AName n)) bs
+  | _ => False
+  end.
+Proof. exact create_first_acceptable. Qed.
+Print Assumptions C09_create_first_acceptable.
+
 (* ---- T6: mixer *)
 Theorem C09_mixer_bad_read_unknown : forall f,
   (not_base (f XGetVolume AUnit) -> volume_answer_ok (f XGetVolume AUnit) = false ->
@@ -327,6 +388,13 @@ Theorem C09_owner_unique : forall P T flag flag' i j s,
   mk_backends P = Ok T -> owns flag P i s -> owns flag' P j s -> i = j.
 Proof. exact owner_unique. Qed.
 Print Assumptions C09_owner_unique.
+
+Theorem C09_core_schemes_exact : forall P mx log l,
+  run P mx OCoreSchemes = (log, Ok (VSchemes l)) ->
+  log = [] /\ NoDup l /\
+  forall s, In s l <-> exists i b, nth_error P i = Some b /\ b_info_ok b = true /\ In s (b_schemes b).
+Proof. exact core_schemes_exact. Qed.
+Print Assumptions C09_core_schemes_exact.
 
 Theorem C09_startup_witness :
   mk_backends [pA; lib [2; 1] []] = Raise KAssertion /\ (exists T, mk_backends [pA; pB] = Ok T).
